@@ -102,6 +102,9 @@ Inductive op :=
 | Get (c s : nat) (k : option nat) (dirty : list Z)  (* from the pool (k-th element, any) or fresh; junk := dirty *)
 | Append (c s : nat) (bs : list Z)                   (* work: append *)
 | Update (c s : nat) (i : nat) (v : Z)               (* work: in-place write below len (bitmap Set, size patching) *)
+| Overwrite (c s : nat) (bs : list Z)                (* work: len := |bs| and every byte below it is written (RequiresBitmap.CopyTo,
+                                                        utils.go:82-90; copy(ps.a, pathes) in SetMany): the dirty bytes that the new
+                                                        length exposes are all overwritten before anything reads them *)
 | Grow (c s : nat) (dirty : list Z)                  (* reallocation: fresh array, logical content copied, old array garbage *)
 | Move (c s s' : nat)                                (* slot s := buffer of slot s'; slot s' cleared ( *out = data, holder dropped) *)
 | Read (c s : nat)                                   (* the call observes the logical content *)
@@ -115,7 +118,7 @@ Inductive op :=
 
 Definition call_of (o : op) : nat :=
   match o with
-  | Get c _ _ _ | Append c _ _ | Update c _ _ _ | Grow c _ _ | Move c _ _ | Read c _ | CopyOut c _ | Put c _ | Drop c _
+  | Get c _ _ _ | Append c _ _ | Update c _ _ _ | Overwrite c _ _ | Grow c _ _ | Move c _ _ | Read c _ | CopyOut c _ | Put c _ | Drop c _
   | ReturnDirect c _ | PutKeep c _ | Borrow c _ _ => c
   end.
 
@@ -168,6 +171,12 @@ Definition step (st : state) (o : op) : state :=
       match work st c s with
       | Some b => mkState (next st) (pool st) (owned st) (work st)
                           (upd_mem (mem st) b (mkBuf (set_nth i v (logical (mem st b))) (junk (mem st b)))) (obs st)
+      | None => st
+      end
+  | Overwrite c s bs =>
+      match work st c s with
+      | Some b => mkState (next st) (pool st) (owned st) (work st)
+                          (upd_mem (mem st) b (mkBuf bs (skipn (length bs) (logical (mem st b) ++ junk (mem st b))))) (obs st)
       | None => st
       end
   | Grow c s dirty =>
@@ -231,7 +240,7 @@ Definition writes (st : state) (o : op) : list buf :=
       | Some (b, _) => [b]
       | None => [next st]
       end
-  | Append c s _ | Update c s _ _ | Put c s | PutKeep c s => match work st c s with Some b => [b] | None => [] end
+  | Append c s _ | Update c s _ _ | Overwrite c s _ | Put c s | PutKeep c s => match work st c s with Some b => [b] | None => [] end
   | Grow c s _ | CopyOut c s => match work st c s with Some _ => [next st] | None => [] end
   | _ => []
   end.
@@ -255,6 +264,7 @@ Definition pstep (ps : pstate) (o : op) : pstate :=
   | Get c s _ _ => mkP (upd_pw (pw ps) c s (Some [])) (pobs ps)
   | Append c s bs => match pw ps c s with Some l => mkP (upd_pw (pw ps) c s (Some (l ++ bs))) (pobs ps) | None => ps end
   | Update c s i v => match pw ps c s with Some l => mkP (upd_pw (pw ps) c s (Some (set_nth i v l))) (pobs ps) | None => ps end
+  | Overwrite c s bs => match pw ps c s with Some _ => mkP (upd_pw (pw ps) c s (Some bs)) (pobs ps) | None => ps end
   | Grow c s _ => ps
   | Move c s s' => match pw ps c s' with Some l => mkP (upd_pw (upd_pw (pw ps) c s' None) c s (Some l)) (pobs ps) | None => ps end
   | Read c s | CopyOut c s => match pw ps c s with Some l => mkP (pw ps) ((c, l) :: pobs ps) | None => ps end
@@ -284,7 +294,7 @@ Definition pure_result (c : nat) (ops : list op) : list (list Z) := pobs_of c (p
 Inductive shape := HGet (s : nat) | HMove (s s' : nat) | HCopyOut (s : nat) | HPut (s : nat) | HDrop (s : nat)
                  | HReturnDirect (s : nat) | HPutKeep (s : nat) | HBorrow (s : nat).
 
-(* work operations (Append, Update, Grow, Read) may occur anywhere: they are not part of the skeleton *)
+(* work operations (Append, Update, Overwrite, Grow, Read) may occur anywhere: they are not part of the skeleton *)
 Definition shape_of (o : op) : option shape :=
   match o with
   | Get _ s _ _ => Some (HGet s) | Move _ s s' => Some (HMove s s') | CopyOut _ s => Some (HCopyOut s)
